@@ -340,6 +340,16 @@ func c15Eval(c core.Case) (res core.Result) {
 	}
 	cfg := string(c.In2)
 	if cfg == "unsupported" {
+		// (minimisation must not leave the quantifier: the query still contains ~ or ^ as an operator)
+		hasOp := false
+		for _, t := range splitTokens(string(c.In)) {
+			if t == "~" || t == "^" {
+				hasOp = true
+			}
+		}
+		if !hasOp {
+			return
+		}
 		var e1, e2 error
 		var s1, s2 string
 		if pi := core.Safe(func() {
